@@ -7,6 +7,7 @@ import BV.Drive.Adapters
 import BV.Drive.FFI
 import BV.Drive.Header
 import BV.Drive.Multi
+import BV.Drive.Favor
 import BV.Drive.Hasher
 import BV.Drive.MatchFinder
 import BV.Drive.Recoder
@@ -15,6 +16,9 @@ import BV.Drive.Stream
 import BV.Drive.MetaBlock
 import BV.Drive.Fragment
 import BV.Drive.Zopfli
+import BV.Drive.Greedy
+import BV.Drive.E2E
+import BV.Drive.Window
 
 /-- line protocol: `<engine> <args…>` in, one canonical line out -/
 def dispatch (line : String) : String :=
@@ -26,6 +30,7 @@ def dispatch (line : String) : String :=
   | "huff" :: rest => BV.Drive.Huffman.handle rest
   | "header" :: rest => BV.Drive.Header.handle rest
   | "multi" :: rest => BV.Drive.Multi.handle rest
+  | "favor" :: rest => BV.Drive.Favor.handle rest
   | "adapters" :: rest => BV.Drive.Adapters.handle rest
   | "hasher" :: "flm" :: rest => BV.Drive.MatchFinder.handle rest
   | "hasher" :: "cbr" :: rest => BV.Drive.MatchFinder.handleCbr rest
@@ -38,6 +43,9 @@ def dispatch (line : String) : String :=
   | "metablock" :: rest => BV.Drive.MetaBlock.handle rest
   | "fragment" :: rest => BV.Drive.Fragment.handle rest
   | "zopfli" :: rest => BV.Drive.Zopfli.handle rest
+  | "greedy" :: rest => BV.Drive.Greedy.handle rest
+  | "e2e" :: rest => BV.Drive.E2E.handle rest
+  | "window" :: rest => BV.Drive.Window.handle rest
   | _ => "bad-engine"
 
 partial def loop (h : IO.FS.Stream) (out : IO.FS.Stream) : IO Unit := do
